@@ -187,8 +187,19 @@ class ContractMixin:
                 else:
                     raise Unsupported(f"quantifier sort {sname}")
                 consts.append(c)
-            body = self.eval_bool(lam.body, st)
-            st.env = saved
+            binders = st.notes.get("binders") or []
+            st.notes["binders"] = binders + consts
+            pc_before = len(st.pc)
+            try:
+                body = self.eval_bool(lam.body, st)
+            finally:
+                st.notes["binders"] = binders
+                st.env = saved
+            newf = st.pc[pc_before:]
+            del st.pc[pc_before:]
+            for f in newf:
+                used = [c for c in consts if self._mentions(f, c)]
+                st.pc.append(z3.ForAll(used, f) if used else f)
             return S_bool(z3.ForAll(consts, body) if name == "forall" else z3.Exists(consts, body))
         if name == "typeis":
             x = self.eval(node.args[0], st)
